@@ -4,12 +4,15 @@ package c14
 // no sockets, inside a bubble, so the gaps between requests are the waits, measured exactly in virtual time.
 //
 // A script tells what the k-th request gets. Retry symbols: 500 | transport error | 429 "Retry-After: 2" |
-// 503 Retry-After: <HTTP-date 90 s ahead> | 503 "Retry-After: soon" | 429 without header.
+// 503 Retry-After: <HTTP-date 90 s ahead> | 503 "Retry-After: soon" | 429 without header |
+// 429 "Retry-After: 9223372037" (does not fit a time.Duration) with a watchdog that cancels the request one virtual
+// hour later: a bubble must never sleep to the end of its clock (the runtime dies on the next timer), and a wait of
+// ~292 years is ended by the watchdog, after which no request may follow; what the oracle judges is the gap, if a
+// next request is seen at all.
 // Ending symbols: 200 | 404 | transport error that is not retried ("unsupported protocol scheme") |
 // 503 with the request's context cancelled while the request is in flight | 500 followed by a cancellation in the
-// middle of the wait (when the wait is >= 2 ns) | 429 "Retry-After: 9223372037" with a watchdog cancelling the request
-// one virtual hour later (the bubble must never sleep to the end of its clock: the runtime dies there; with the hint
-// honoured the wait is ~292 years, so the watchdog ends the request and no further request may be seen).
+// middle of the wait (where there is no such instant — wait < 2 ns, or no wait follows — the script is, for the code
+// under test, the one with a plain 500 there: the run is cut and the sibling subtree decides it).
 // Enumeration: the same lazy exhaustive DFS as part (a).
 //
 // Readings: the client's RetryMax counts retries, so at most RetryMax+1 requests (also for a disabled policy: the
@@ -405,7 +408,7 @@ func jobsC(thorough bool) []jobC {
 	for s := c500; s < nCSyms; s++ {
 		full = append(full, s)
 	}
-	small := []csym{c500, c429s, cErr, c200, c404, cFatal, cCancel503, cMid500, cBig429}
+	small := []csym{c500, c429s, c200, c404, cFatal, cCancel503, cMid500, cBig429}
 	mm := []minmax{{0, 0}, {time.Millisecond, time.Millisecond}, {time.Millisecond, 4 * time.Millisecond}, {time.Second, 30 * time.Second}}
 	fullMax, smallMax := 2, 3
 	if thorough {
